@@ -68,7 +68,8 @@ type c18Setting struct {
 
 func selMatches(sel *metav1.LabelSelector, lbls map[string]string) bool {
 	for k, v := range sel.MatchLabels {
-		if lbls[k] != v {
+		// (the label has to be present: an empty value does not match a node that lacks the key)
+		if lv, has := lbls[k]; !has || lv != v {
 			return false
 		}
 	}
@@ -123,6 +124,10 @@ func (e *C18) Run(ctx *core.Ctx, idx int) {
 		if r.Intn(2) == 0 {
 			l["type"] = []string{"x", "y"}[r.Intn(2)]
 		}
+		if r.Intn(4) == 0 {
+			// a role label: key present, empty value
+			l["node-role.example.com/infra"] = ""
+		}
 		nodes = append(nodes, nodeD{fmt.Sprintf("n%d", i), l, r.Intn(5) == 0})
 	}
 	ns := 1 + r.Intn(4)
@@ -134,7 +139,10 @@ func (e *C18) Run(ctx *core.Ctx, idx int) {
 	withBroken := r.Intn(5) == 0
 	for i := 0; i < ns; i++ {
 		d := c18Setting{Name: fmt.Sprintf("s%d", i), NS: "ns", HasRef: r.Intn(6) != 0, Created: time.Duration(r.Intn(3)) * time.Minute, CPU: fmt.Sprintf("%d", 1+i)}
-		switch r.Intn(6) {
+		switch r.Intn(7) {
+		case 6:
+			// a role label selected the usual way: the key with an empty value (nodes without the label do not match)
+			d.Sel = metav1.LabelSelector{MatchLabels: map[string]string{"node-role.example.com/infra": ""}}
 		case 5:
 			// no matchLabels and no matchExpressions: the setting selects every node
 			d.Sel = metav1.LabelSelector{}
